@@ -425,7 +425,7 @@ func c19Geometry(c *run.Ctx, idx uint64) {
 	c19GenGeometry(r, q, mag)
 	q.stops = c19ValidStops(r, r.Pick(2, 2, 3, 5, 20, 58))
 	vb := ivg.ViewBox{MinX: float32(-mag * r.Uniform(0.5, 1.5)), MinY: float32(-mag * r.Uniform(0.5, 1.5)), MaxX: float32(mag * r.Uniform(0.5, 1.5)), MaxY: float32(mag * r.Uniform(0.5, 1.5))}
-	rect := image.Rect(0, 0, r.Range(1, 300), r.Range(1, 300)).Add(image.Pt(r.Intn(50), r.Intn(50)))
+	rect := image.Rect(0, 0, r.Range(1, 300), r.Range(1, 300)).Add(image.Pt(r.Range(-30, 50), r.Range(-30, 50)))
 	c.Count([]string{"linear", "circular", "elliptical", "general"}[q.kind], 1)
 	prog := func(dst ivg.Destination) error {
 		d := &rec.Dest{Tee: dst}
